@@ -1335,20 +1335,22 @@ pub fn unify(
             )))
         }
 
-        // Concrete union with pattern non-union - pattern must match one variant
+        // Concrete union with pattern non-union - the argument may be any of its variants, so
+        // the pattern must match every one of them (a type variable met more than once widens to
+        // the union of what it met).
         (_, Type::Union(variants)) => {
             let variants = variants.clone();
+            let mut temp_bindings = bindings.clone();
             for &variant in &variants {
-                let mut temp_bindings = bindings.clone();
-                if unify(&mut temp_bindings, pattern_id, variant, program).is_ok() {
-                    *bindings = temp_bindings;
-                    return Ok(());
+                if unify(&mut temp_bindings, pattern_id, variant, program).is_err() {
+                    return Err(Error::TypeUnresolved(format!(
+                        "Cannot unify pattern with concrete union ({} variants)",
+                        variants.len()
+                    )));
                 }
             }
-            Err(Error::TypeUnresolved(format!(
-                "Cannot unify pattern with concrete union ({} variants)",
-                variants.len()
-            )))
+            *bindings = temp_bindings;
+            Ok(())
         }
 
         // All other combinations are incompatible
